@@ -7,6 +7,7 @@
  *   nofreq TYPE R C F         same but vnacal_new_set_frequency_vector is not called
  *   par K re im               scalar parameter in slot K (slots 0,1,2 = VNACAL_ZERO/ONE(OPEN)/SHORT)
  *   unk K G                   unknown parameter in slot K, initial guess slot G
+ *   cor K O sigma             correlated parameter in slot K, correlated with slot O
  *   merr sigma|off            vnacal_new_set_m_error (one sigma for all frequencies) / reset
  *   add r1 BR BC s11 port  <BR*BC complex>
  *   add r2 BR BC s11 s22 p1 p2 <...>
@@ -230,6 +231,14 @@ int main(void)
 	    slots[k] = vnacal_make_unknown_parameter(vcp, slots[g]);
 	    verif_alloc_track(0);
 	    printf("U %d %s\n", k, slots[k] >= 0 ? "ok" : "fail");
+	} else if (strcmp(op, "cor") == 0) {
+	    int k = nexti();
+	    int o = nexti();
+	    double sigma = nextd();
+	    verif_alloc_track(1);
+	    slots[k] = vnacal_make_correlated_parameter(vcp, slots[o], NULL, 1, &sigma);
+	    verif_alloc_track(0);
+	    printf("C %d %s\n", k, slots[k] >= 0 ? "ok" : "fail");
 	} else if (strcmp(op, "merr") == 0) {
 	    const char *a = next();
 	    int rc;
